@@ -246,3 +246,87 @@ func RunReplay(t *testing.T, fns map[string]func()) {
 	}
 	flush()
 }
+
+// ---------------------------------------------------------------- helpers
+// Ordinary Go code (interpreted by the engine like any other code).
+
+// Sink is an in-memory io.WriteCloser.
+type Sink struct {
+	B      []byte
+	Closed bool
+	Writes int
+}
+
+func (s *Sink) Write(p []byte) (int, error) {
+	s.B = append(s.B, p...)
+	s.Writes++
+	return len(p), nil
+}
+
+func (s *Sink) Close() error {
+	s.Closed = true
+	return nil
+}
+
+type eofError struct{}
+
+func (eofError) Error() string { return "EOF" }
+
+// ChunkReader returns Data in pieces of at most Chunk bytes, then ErrEOF.
+type ChunkReader struct {
+	Data  []byte
+	Chunk int
+	EOF   error // returned at the end of Data (io.EOF, set by the harness)
+	Reads int
+}
+
+func (r *ChunkReader) Read(p []byte) (int, error) {
+	r.Reads++
+	if len(r.Data) == 0 {
+		return 0, r.EOF
+	}
+	n := len(p)
+	if r.Chunk > 0 && n > r.Chunk {
+		n = r.Chunk
+	}
+	if n > len(r.Data) {
+		n = len(r.Data)
+	}
+	copy(p, r.Data[:n])
+	r.Data = r.Data[n:]
+	return n, nil
+}
+
+// Reader is the interface of io.Reader (kept local to avoid importing io).
+type Reader interface {
+	Read(p []byte) (int, error)
+}
+
+// ReadAll reads r with a buffer of bufsz bytes until an error is returned or
+// maxReads calls were made.  It returns the data, the final error and
+// whether the loop ended because of maxReads.
+func ReadAll(r Reader, bufsz, maxReads int) (out []byte, err error, exhausted bool) {
+	buf := make([]byte, bufsz)
+	for i := 0; i < maxReads; i++ {
+		n, e := r.Read(buf)
+		out = append(out, buf[:n]...)
+		if e != nil {
+			return out, e, false
+		}
+	}
+	return out, nil, true
+}
+
+// Equal compares byte slices without branching per byte.
+func Equal(a, b []byte) bool {
+	if len(a) != len(b) {
+		return false
+	}
+	same := true
+	for i := range a {
+		if a[i] != b[i] {
+			same = false
+		}
+	}
+	return same
+}
